@@ -2,7 +2,7 @@
     Statements only; proofs live in Proofs/C17Shapes.v and Proofs/C17Proofs.v (on Model/BashSem.v, the interpreter
     of the emitted bash skeleton, tied to real bash by T2; the specification is Spec/Invocations.v). *)
 From CG Require Import Base.Prelude Model.Dfa Model.Glob Model.BashSem Model.C17Witness Spec.Invocations.
-From CG Require Import Proofs.GlobFacts Proofs.SubwordFacts Proofs.C12Chain Proofs.C17Proofs Proofs.C17Shapes.
+From CG Require Import Proofs.GlobFacts Proofs.SubwordFacts Proofs.C12Proofs Proofs.C12Chain Proofs.C17Proofs Proofs.C17Shapes Proofs.C17Total.
 
 (** For ALL tables, environments and command lines: every invocation the script makes passes ("","") while a
     complete word is matched at top level, (typed prefix, "") at the cursor, and inside a word w a split of w --
@@ -44,6 +44,30 @@ Proof. exact filter_lines_repaired_spec. Qed.
 Check C17_repaired_candidates :
   forall output, command_lines Repaired output = spec_candidates output.
 Print Assumptions C17_repaired_candidates.
+
+(** /repo HEAD always terminates: for ALL tables whose within-word literals are non-empty (the parser guarantees it),
+    every environment and every command line, the interpreter neither runs out of fuel (every round of the within-word
+    loop consumes at least one character: an empty candidate is never consumed) nor panics, and a result is a return
+    code 0 or 1.  ([Err] remains possible: it flags a query outside the modelled domain -- an extended glob in
+    COMP_WORDBREAKS stripping, a non-printable prefix given to printf %q, a command id without function.) *)
+Theorem C17_repaired_total :
+  forall tabs e start ws p,
+    wf_subword_literals tabs ->
+    run_from Repaired start tabs e ws p <> OutOfFuel
+    /\ (forall site, run_from Repaired start tabs e ws p <> Panic site)
+    /\ (forall r, run_from Repaired start tabs e ws p = Ok r -> r_rc r = 0 \/ r_rc r = 1).
+Proof.
+  intros tabs e start ws p H.
+  destruct (run_from_repaired_total tabs e H start ws p) as [F R].
+  destruct (run_from Repaired start tabs e ws p); cbn in F; repeat split; try discriminate; try contradiction; exact R.
+Qed.
+Check C17_repaired_total :
+  forall tabs e start ws p,
+    wf_subword_literals tabs ->
+    run_from Repaired start tabs e ws p <> OutOfFuel
+    /\ (forall site, run_from Repaired start tabs e ws p <> Panic site)
+    /\ (forall r, run_from Repaired start tabs e ws p = Ok r -> r_rc r = 0 \/ r_rc r = 1).
+Print Assumptions C17_repaired_total.
 
 (** The templates before the repair ([Pinned], [Fixed]): the same equality only on the clean top-level domain -- no within-word expressions, every command prints lines without blanks that
     are not option words of echo, glob-free complete words, printable prefix, and the situation of the last-word
